@@ -1377,12 +1377,14 @@ func (tr *fnTrans) checkPure() {
 	}
 }
 
-// callCycle returns a description of a static call cycle through fn, or "".
+// callCycle returns a description of a static call cycle among the functions of fn's package reachable from fn
+// (fn included), or "".
 func callCycle(fn *ssa.Function) string {
-	seen := map[*ssa.Function]bool{}
-	var path []string
+	state := map[*ssa.Function]int{} // 1 = on stack, 2 = done
+	var found string
 	var dfs func(f *ssa.Function) bool
 	dfs = func(f *ssa.Function) bool {
+		state[f] = 1
 		for _, b := range f.Blocks {
 			for _, in := range b.Instrs {
 				call, ok := in.(ssa.CallInstruction)
@@ -1393,24 +1395,20 @@ func callCycle(fn *ssa.Function) string {
 				if callee == nil || callee.Pkg != fn.Pkg {
 					continue
 				}
-				if callee == fn {
-					path = append(path, fnKey(f)+" -> "+fnKey(fn))
+				if state[callee] == 1 {
+					found = fnKey(f) + " -> " + fnKey(callee)
 					return true
 				}
-				if seen[callee] {
-					continue
-				}
-				seen[callee] = true
-				if dfs(callee) {
-					path = append(path, fnKey(f)+" -> "+fnKey(callee))
+				if state[callee] == 0 && dfs(callee) {
 					return true
 				}
 			}
 		}
+		state[f] = 2
 		return false
 	}
 	if dfs(fn) {
-		return strings.Join(path, "; ")
+		return found
 	}
 	return ""
 }
